@@ -1,5 +1,5 @@
 /* vgen.h — input-shape grammar shared by the conformance drivers (deterministic from a seed).
- * kinds: text rand rle zero mix longrep blockdup tailmatch straddle edge longlit longmatch period repheavy records sparse */
+ * kinds: text rand rle zero mix longrep blockdup tailmatch straddle edge longlit longmatch period repheavy records sparse copies copies1m */
 #ifndef VGEN_H
 #define VGEN_H
 #include <string.h>
@@ -48,6 +48,10 @@ static void vgen(const char* kind, size_t n, unsigned seed, unsigned char* d) {
         size_t p = 200 + seed % 5000; for (i = 0; i < n; i++) d[i] = (i < p) ? (unsigned char)(VG_RND >> 3) : d[i - p]; if (n > 200000) d[150000] ^= 0x55; }
     else if (!strcmp(kind, "repheavy") || !strcmp(kind, "records")) {   /* fixed-size records differing in a few bytes: repeat offsets dominate */
         size_t rec = 16 + seed % 48; for (i = 0; i < n; i++) { if (i < rec) d[i] = (unsigned char)(VG_RND >> 3); else d[i] = (VG_RND % 11 == 0) ? (unsigned char)(VG_RND >> 3) : d[i - rec]; } }
+    else if (!strcmp(kind, "copies")) {        /* an incompressible region repeated 3-6 times (a tar of copies): long-distance ties between equally good earlier copies */
+        size_t k = 3 + seed % 4, r = n / k ? n / k : 1; for (i = 0; i < n; i++) d[i] = (i < r) ? (unsigned char)(VG_RND >> 3) : d[i - r]; }
+    else if (!strcmp(kind, "copies1m")) {      /* the same with a region of 1 MiB (+ 0..3 pages) */
+        size_t r = ((size_t)1 << 20) + (seed % 4) * 4096; for (i = 0; i < n; i++) d[i] = (i < r) ? (unsigned char)(VG_RND >> 3) : d[i - r]; }
     else if (!strcmp(kind, "sparse")) { memset(d, 0, n); for (i = 0; i < n; i += 1 + VG_RND % 5000) d[i] = (unsigned char)(1 + VG_RND % 255); }
     else if (!strcmp(kind, "mix")) {
         i = 0; while (i < n) { size_t run = 1 + VG_RND % 700; unsigned m = VG_RND % 4; size_t j;
